@@ -600,8 +600,8 @@ theorem anyEmptyPat_comm (ref est : Pats) : (est ++ ref).any List.isEmpty = (ref
 theorem firstNThreeLayerP_eq (ref est : Pats) (n : Int) :
     firstNThreeLayerP ref est n =
       if (ref ++ est).any List.isEmpty then .error .valueError
-      else if isZero ref est then .ok (.triple 0 0 0)
-      else (threeLayerFPR ref (firstN est n)).map fun t => .scalar t.2.1 := by
+      else if isZero ref est then .ok 0
+      else (threeLayerFPR ref (firstN est n)).map fun t => t.2.1 := by
   unfold firstNThreeLayerP
   rw [validate_eq]
   split
@@ -614,8 +614,8 @@ theorem firstNThreeLayerP_eq (ref est : Pats) (n : Int) :
 theorem firstNTargetProportionR_eq (ref est : Pats) (n : Int) :
     firstNTargetProportionR ref est n =
       if (ref ++ est).any List.isEmpty then .error .valueError
-      else if isZero ref est then .ok (.triple 0 0 0)
-      else (establishmentFPR ref (firstN est n) cardName).map fun t => .scalar t.2.2 := by
+      else if isZero ref est then .ok 0
+      else (establishmentFPR ref (firstN est n) cardName).map fun t => t.2.2 := by
   unfold firstNTargetProportionR
   rw [validate_eq]
   split
